@@ -45,6 +45,9 @@ def check(ctx):
     _r1(ctx)
     _r2(ctx)
     _r3(ctx)
+    r3_hydrogen_placement(ctx)
+    from .c05 import periodic_plumbing
+    periodic_plumbing(ctx, "C14-R1", only={"mdtraj/geometry/hbond.py"}, floor=4)
     r4_sentinels(ctx, "C14-R4")
 
 
@@ -314,3 +317,34 @@ def _callers_guard(ctx, cf, rel, fname, pidx, rule):
                 if ("skip[%s]" % e, False) not in g.get(c["id"], []):
                     ok = False
     return ok and found
+
+
+def r3_hydrogen_placement(ctx):
+    """The amide hydrogen is put 0.1 nm from N along the previous C=O whenever that C and O exist, and on N only when one of them is missing."""
+    cf = C.get(ctx.repo)
+    fn = cf.function(GEO, "ks_assign_hydrogens")
+    g = C.guards(fn)
+    loops = [n for n in C.walk(fn) if n["kind"] == "ForStmt"]
+    if not loops:
+        raise AnalysisError("ks_assign_hydrogens: residue loop not found")
+    loaded = {n.get("name"): re.sub(r"\s", "", C.text(C.kids(n)[-1])) for n in C.walk(loops[0]) if n["kind"] == "VarDecl" and n.get("name") in ("pc_index", "po_index") and C.kids(n)}
+    ok = loaded.get("pc_index") == "nco_indices[((3*(ri-1))+1)]" and loaded.get("po_index") == "nco_indices[((3*(ri-1))+2)]"
+    ctx.decide(ok, "C14-R3", C.line(loops[0]), GEO, "ks_assign_hydrogens", "pc/po = C and O of residue ri-1", str(loaded), "previous carbonyl indices are loaded as %s" % loaded)
+    stores = [n for n in C.walk(loops[0]) if n["kind"] == "CXXMemberCallExpr" and (C.callee_name(n) or "") == "store"]
+    seen = {"r_n": 0, "r_h": 0}
+    for s in stores:
+        obj = re.sub(r"\s", "", C.text(C.kids(C.kids(s)[0])[0])) if C.kids(C.kids(s)[0]) else "?"
+        facts = sorted(set(g.get(s["id"], [])))
+        if obj == "r_n":
+            want = sorted({("skip[ri]", False), ("((pc_index<0)||(po_index<0))", True)})
+            alt = sorted({("skip[ri]", False), ("((po_index<0)||(pc_index<0))", True)})
+            seen["r_n"] += 1
+            ctx.decide(facts in (want, alt), "C14-R3", C.line(s), GEO, "ks_assign_hydrogens", "H on N exactly when the previous C or O is missing", str(facts),
+                       "the hydrogen is left on the nitrogen under %s: a residue whose predecessor still has its C=O (but lacks another atom) loses the N-H direction and with it its hydrogen bonds" % facts)
+        elif obj == "r_h":
+            want = sorted({("skip[ri]", False), ("(pc_index<0)", False), ("(po_index<0)", False)})
+            seen["r_h"] += 1
+            ctx.decide(facts == want, "C14-R3", C.line(s), GEO, "ks_assign_hydrogens", "H along the previous C=O when both atoms exist", str(facts),
+                       "the carbonyl-oriented hydrogen is stored under %s" % facts)
+    if seen["r_n"] != 1 or seen["r_h"] != 1:
+        raise AnalysisError("ks_assign_hydrogens: expected one r_n and one r_h store in the residue loop, found %s" % seen)
